@@ -401,8 +401,10 @@ func (p *proxyConn) handle() error {
 
 func (p *proxyConn) writeErrorResponse(req *http.Request, err error) error {
 	res := maybeConnectErrorResponse(err)
+	var challenge []string
 	if res == nil {
 		res = p.errorResponse(req, err)
+		challenge = res.Header.Values("Proxy-Authenticate")
 	}
 	if err := p.modifyResponse(res); err != nil {
 		log.Error(req.Context(), "error modifying error response", "error", err)
@@ -410,7 +412,17 @@ func (p *proxyConn) writeErrorResponse(req *http.Request, err error) error {
 			proxyutil.Warning(res.Header, err)
 		}
 	}
+	restoreProxyAuthenticate(res, challenge)
 	return p.writeResponse(res)
+}
+
+// restoreProxyAuthenticate puts back the challenge of a 407 response generated by this proxy.
+// Proxy-Authenticate is a hop-by-hop header and is removed by the response modifiers,
+// but for a locally generated response this proxy is the hop that must deliver it.
+func restoreProxyAuthenticate(res *http.Response, challenge []string) {
+	if res.StatusCode == http.StatusProxyAuthRequired && len(challenge) > 0 && len(res.Header.Values("Proxy-Authenticate")) == 0 {
+		res.Header["Proxy-Authenticate"] = challenge
+	}
 }
 
 func (p *proxyConn) writeResponse(res *http.Response) error {
